@@ -173,3 +173,24 @@ func HarnessC08Size(k, afc, flags int) {
 	vassert("C08.size.eof", err == ErrNoMorePackets)
 	vreach("C08.size.end")
 }
+
+// HarnessC08Short: the shortest streams on which auto-detection can work: one packet (the PAT) followed by the first
+// `extra` bytes of the next one, so the input ends inside the 193-byte detection window: on a seekable or bufio reader
+// the packet is delivered exactly as with the explicit size
+func HarnessC08Short(kind, size, extra int) {
+	s := c08Stream()
+	data := widen(s.pkts[:2], size)[:size+extra]
+	ref, err := drainReader(newVReader(data), size)
+	vassert("C08.ref.err", err == nil && len(ref) == 1)
+	r, _ := c08Reader(kind, data, nil)
+	got, err := drainReader(r, 0)
+	// F16 (fixed): bufio / plain readers failed with EOF when the input ended inside the window
+	f16 := kind != 0 && size+extra < 193
+	vassertK("C08.short.err", "F16", f16, err == nil)
+	if kind == 1 {
+		vassert("C08.short.plain.suffix", len(got) <= len(ref) && sameSeq(ref[len(ref)-len(got):], got))
+	} else {
+		vassertK("C08.short.same", "F16", f16, sameSeq(ref, got))
+	}
+	vreach("C08.short.end")
+}
